@@ -255,7 +255,8 @@ class FoldConst(Spec):
         def b_float_attr(ex, st, args, kw):
             from pyvc.engine import Res
 
-            spec.folded = args[0]
+            # per-path record (the State is forked per path; Python attributes of the spec are shared by all paths)
+            st.ghost["folded"] = z_float(args[0])
             return [Res("val", VRef(z3.IntVal(50), "FloatAttr"), st)]
 
         def b_const(ex, st, args, kw):
@@ -280,9 +281,9 @@ class FoldConst(Spec):
         ieee = {"AddfOp": z3.fpAdd, "SubfOp": z3.fpSub, "MulfOp": z3.fpMul, "DivfOp": z3.fpDiv}.get(self.op)
         if ieee is None:
             return [C("other-operations-are-not-folded", z3.BoolVal(res is None))]
-        if res is None or self.folded is None:
+        if res is None or "folded" not in st.ghost:
             return [C("folds-the-four-basic-operations", z3.BoolVal(False))]
-        return [C("folded-constant-is-the-ieee754-result", fp_same(z_float(self.folded), ieee(RNE, self.x, self.y)))]
+        return [C("folded-constant-is-the-ieee754-result", fp_same(st.ghost["folded"], ieee(RNE, self.x, self.y)))]
 
     def post_exc(self, old, st, a, exc):
         return None  # never raises (ZeroDivisionError included)
